@@ -593,3 +593,12 @@ PROPS['C10']['assumptions'] = PROPS['C10']['assumptions'] + STORE_ASSUME
 PROPS['C06']['verus'] = PROPS['C06']['verus'] + ['api']
 PROPS['C06'].setdefault('verus_only', {})['api'] = [r'CacheD::key_description$', r'CacheD::mark_key_accessed$']
 PROPS['C06']['assumptions'] = PROPS['C06']['assumptions'] + API_ASSUME
+
+# the wiring of CacheD::new / ttl_ticker (unit `config`): the configured values reach the parts
+for _p, _only in (('C09', [r'CacheD::new$', r'CacheD::ttl_ticker$']), ('C10', [r'CacheD::new$', r'CacheD::ttl_ticker$']), ('C01', [r'CacheD::new$']), ('C13', [r'CacheD::new$'])):
+    if 'config' not in PROPS[_p]['verus']:
+        PROPS[_p]['verus'] = PROPS[_p]['verus'] + ['config']
+    PROPS[_p].setdefault('verus_only', {})
+    PROPS[_p]['verus_only']['config'] = PROPS[_p]['verus_only'].get('config', []) + _only
+PROPS['C01']['verus_only']['weights'] = PROPS['C01']['verus_only']['weights'] + [r'CacheWeight::new$', r'CacheWeightConfig::']
+PROPS['C09']['verus_only']['store'] = PROPS['C09']['verus_only']['store'] + [r'Store::new$']
